@@ -280,6 +280,8 @@ def build_templates():
             # indeterminate): still executed as interleaving partners
             t(fam + ".pairing", ["f", m, "pairing"], ["pt:%s:G2" % fam, "pt:%s:G1" % fam],
               "fld:%s:FQ12" % fam, 1750, g, w=0.15)
+            t(fam + ".miller_loop", ["f", pm, "miller_loop"],
+              ["pt:%s:G12" % fam, "pt:%s:G12" % fam], "fld:%s:FQ12" % fam, 1750, g, w=0.1)
             t(fam + ".final_exponentiate", ["f", m, "final_exponentiate"],
               ["fld:%s:FQ12" % fam], "fld:%s:FQ12" % fam, 300, g, w=0.15)
 
@@ -345,6 +347,8 @@ def build_templates():
         t(s + ".KeyGen(info)", ["c", c, "KeyGen"], ["b:ikm", "b:any"], "sk", 0.15, g)
         t(s + ".KeyValidate", ["c", c, "KeyValidate"], ["b:pk"], None, 10, g)
         t(s + ".Sign", ["c", c, "Sign"], ["sk", "b:msg"], "b:sig", 110, g, w=1.5)
+        t(s + "._CoreSign", ["c", c, "_CoreSign"], ["sk", "b:msg", "b:dst"], "b:sig", 110, g,
+          w=0.3)
         t(s + ".Verify", ["c", c, "Verify"], gen="verify", cost=330, group=g, w=1.5)
         t(s + ".Aggregate", ["c", c, "Aggregate"], gen="aggregate", out="b:sig", cost=14,
           group=g)
@@ -1328,3 +1332,106 @@ class Scenarios(Gen):
 
 def sweep_templates(max_cost=1e9):
     return [t for t in TEMPLATES if t.cost <= max_cost]
+
+
+# ==========================================================================
+# fresh-interpreter scenarios
+# ==========================================================================
+SUBPACKAGE_NAMES = ["bls", "bls12_381", "bn128", "optimized_bls12_381", "optimized_bn128",
+                    "secp256k1"]
+PKG_GROUPS = {
+    "bls": ["hash", "h2c", "compress", "g2prim", "swu", "bls:G2Basic",
+            "bls:G2ProofOfPossession", "bls:G2MessageAugmentation",
+            "field:optimized_bls12_381"],
+    "bls12_381": ["field:bls12_381", "curve:bls12_381"],
+    "bn128": ["field:bn128", "curve:bn128"],
+    "optimized_bls12_381": ["field:optimized_bls12_381", "curve:optimized_bls12_381", "swu"],
+    "optimized_bn128": ["field:optimized_bn128", "curve:optimized_bn128"],
+    "secp256k1": ["secp"],
+}
+
+
+def nth_permutation(items, n):
+    items = list(items)
+    out = []
+    import math
+    n %= math.factorial(len(items))
+    for i in range(len(items), 0, -1):
+        f = math.factorial(i - 1)
+        out.append(items.pop(n // f))
+        n %= f
+    return out
+
+
+class ColdScenarios(Scenarios):
+    def _cold_spec(self, name, order, flags=None):
+        r = self.rng
+        spec = self.new_spec(name)
+        spec["monitor"] = "global"
+        spec["knobs"] = {"gc": "disabled", "recursion_limit_after_import": None}
+        spec["server"] = {"mode": "cold", "import_order": list(order),
+                          "hashseed": r.randrange(1, 2**32 - 1),
+                          "flags": flags if flags is not None else
+                          r.choice([[], [], [], ["-O"], ["-OO"]])}
+        return spec
+
+    def scn_cold(self, faults=False):
+        r = self.rng
+        k = r.choice([0, 0, 1, 1, 2, 3, 6])
+        spec = self._cold_spec("cold", r.sample(SUBPACKAGE_NAMES, k))
+        if r.random() < 0.4:
+            self.enable_adhoc(spec, r.sample(list(ADHOC), 1))
+        b = Builder(self)
+        firsts = []
+        order = spec["server"]["import_order"]
+        cold_first = [n for n in SUBPACKAGE_NAMES if n not in order]
+        names = r.sample(SUBPACKAGE_NAMES, r.randint(1, 3))
+        if cold_first and not any(n in cold_first for n in names):
+            names[0] = r.choice(cold_first)
+        for name in names:
+            b.emit("lazy.%s.%s" % (r.choice(["getattr", "import", "from"]), name))
+            if name in cold_first:
+                firsts.append(len(b.ops) - 1)
+            b.emit("lazy.%s.%s" % (r.choice(["getattr", "import", "from"]), name))
+            cands = [t for t in TEMPLATES if t.group in PKG_GROUPS[name] and t.cost <= 15]
+            self.fill(b, cands, len(b.ops) + r.randint(1, 3), 400)
+        gen = [t for t in TEMPLATES if t.group in ("generic", "utils")]
+        self.fill(b, gen, len(b.ops) + r.randint(2, 4), 400)
+        groups = {g for a in spec["adhoc_classes"] for g in ["field:" + a["name"].split("_")[0]]}
+        anyc = [t for t in TEMPLATES if t.cost <= 15 and
+                (not t.group.startswith("field:") or t.group[6:] in FAMS or t.group in groups)
+                and t.group != "lazy"]
+        self.fill(b, anyc, len(b.ops) + r.randint(2, 6), 600)
+        self.fill(b, gen, len(b.ops) + r.randint(1, 3), 600)
+        spec["tasks"] = [b.ops]
+        if faults and firsts:
+            k = r.choice(firsts)
+            spec["faults"].append({"kind": "async_exc", "task": 0, "op": k, "frac": r.random(),
+                                   "exc": r.choice(["SimInterrupt", "KeyboardInterrupt",
+                                                    "MemoryError", "RecursionError",
+                                                    "TimeoutError"])})
+        return spec
+
+    def scn_cold_order(self, perm_index):
+        """all six sub-packages imported up front in the given order, then a fixed
+        battery: generic base classes, one call per package, lazy accesses"""
+        order = nth_permutation(SUBPACKAGE_NAMES, perm_index)
+        spec = self._cold_spec("cold-order", order,
+                               flags=[[], [], ["-O"], ["-OO"]][perm_index % 4])
+        spec["perm_index"] = perm_index
+        b = Builder(self)
+        for t in TEMPLATES:
+            if t.group == "generic":
+                b.emit(t)
+        for k in ("optimized_bls12_381.FQ2.ctor(ints)", "optimized_bls12_381.FQ2.mul",
+                  "bn128.FQ2.ctor(ints)", "bn128.FQ2.mul", "bls12_381.FQ12.one",
+                  "optimized_bn128.FQ12.ctor(ints)", "optimized_bn128.FQ12.inv",
+                  "optimized_bn128.G1.multiply(small)", "bn128.G2.double",
+                  "bls12_381.G1.add", "optimized_bls12_381.G2.normalize",
+                  "secp.privtopub", "secp.ecdsa_raw_sign", "G2Basic.KeyGen",
+                  "G2ProofOfPossession.SkToPk", "hash.expand_message_xmd",
+                  "h2c.hash_to_G1", "pc.compress_G2", "optimized_bls12_381.exp_by_p",
+                  "lazy.getattr.bls", "lazy.getattr.secp256k1", "lazy.getattr.nonexistent"):
+            b.emit(k)
+        spec["tasks"] = [b.ops]
+        return spec
